@@ -127,12 +127,17 @@ var funcSpecs = []funcSpec{
 	{rel: "", name: "ParseX25519Identity", abstract: []string{"curve25519.X25519"}},
 	{rel: "", name: "(*X25519Identity).String"},
 	{rel: "", name: "(*X25519Identity).Recipient"},
+	{rel: "agessh", name: "(*EncryptedSSHIdentity).Unwrap", abstract: []string{"agessh.sshFingerprint"},
+		opaque: map[string]string{"ssh.PublicKey": "π", "age.Recipient": "ρ", "age.Identity": "ι"}, stopAt: "err != nil", stopRet: []string{"passphrase", "err"}},
 	{rel: "", name: "ParseRecipients", abstract: []string{"age.ParseX25519Recipient"}, opaque: map[string]string{"Recipient": "κ", "X25519Recipient": "κ"}, errInts: true},
 }
 
 // the native recipients: the primitives are abstract
 var nativeAbstract = []string{"curve25519.X25519", "format.EncodeToString", "format.DecodeString", "age.aeadEncrypt", "age.aeadDecrypt", "scrypt.Key"}
 var nativeOpaque = map[string]string{"io.Reader": "κ", "tapeτ": "τ"}
+
+// Marshal: the destination is abstract state, the wrapped base64 encoder on top of it too
+var marshalOpaque = map[string]string{"io.Writer": "δ", "format.WrappedBase64Encoder": "ω", "base64.Encoding": "ε"}
 
 // agessh: the primitives, the key's wire form and its fingerprint are abstract
 var sshAbstract = []string{"curve25519.X25519", "format.EncodeToString", "format.DecodeString", "agessh.aeadEncrypt", "agessh.aeadDecrypt", "agessh.sshFingerprint"}
@@ -877,6 +882,17 @@ func (c *fctx) binary(at ast.Node, X ast.Expr, op token.Token, Y ast.Expr, opT t
 				}
 			}
 		}
+		// comparison of a value of an opaque type with nil: an abstract predicate
+		if c.isNil(Y) {
+			if lt, ok := leanTypeOf(c.typeOf(X)); ok && len([]rune(lt)) == 1 {
+				an := "isNil_" + lt
+				c.useAbstractName(an, "("+an+" : "+lt+" → Bool)")
+				if op == token.EQL {
+					return "(" + an + " " + c.expr(X) + ")"
+				}
+				return "(!(" + an + " " + c.expr(X) + "))"
+			}
+		}
 		switch {
 		case c.isNil(Y):
 			return "(" + c.expr(X) + " " + o + " " + c.exprAs(Y, c.typeOf(X)) + ")"
@@ -1022,7 +1038,8 @@ func (c *fctx) call(x *ast.CallExpr) string {
 			if (o.Pkg().Path() == "fmt" && o.Name() == "Errorf") || (o.Pkg().Path() == "errors" && o.Name() == "New") || c.isErrCtor(o) {
 				for _, a := range x.Args {
 					if c.partial(a) {
-						c.fail(x, "argument of an error constructor can fault")
+						// evaluated for its faults and effects, in front of the statement; the value only feeds the message text
+						c.curE.add(c.curInd, "let _ := "+c.expr(a))
 					}
 				}
 				k := c.errN
@@ -1209,6 +1226,14 @@ func (c *fctx) call(x *ast.CallExpr) string {
 					return "(← " + an + " " + strings.Join(parts, " ") + ")"
 				}
 			}
+		}
+		// a call through a struct field of function type (a callback the value carries)
+		if _, isSig := o.Type().Underlying().(*types.Signature); isSig && o.IsField() {
+			var parts []string
+			for _, a := range x.Args {
+				parts = append(parts, c.expr(a))
+			}
+			return "(← " + c.expr(ast.Unparen(x.Fun)) + " " + strings.Join(parts, " ") + ")"
 		}
 		// a call through a parameter of function type
 		if _, isSig := o.Type().Underlying().(*types.Signature); isSig && o.Parent() != c.fi.Pkg.Types.Scope() {
@@ -1498,6 +1523,15 @@ func (t *ftr) global(c *fctx, at ast.Node, v *types.Var) string {
 		return n
 	}
 	p := c.fi.Pkg
+	if vp := t.pr.ByPath[v.Pkg().Path()]; vp != nil {
+		p = vp // the variable's own package (it may be named from another package of the module)
+	}
+	// a value of a type that is opaque here (an encoding, a key): an abstract constant, a parameter of the translated function
+	if lt, ok := leanTypeOf(v.Type()); ok && len([]rune(lt)) == 1 {
+		an := leanIdent(p.Name) + "_" + v.Name()
+		c.useAbstractName(an, "("+an+" : "+lt+")")
+		return an
+	}
 	init := varInit(p, v)
 	if init == nil {
 		c.fail(at, "package-level variable %s has no initialiser", v.Name())
@@ -1713,7 +1747,7 @@ func (c *fctx) assignedIn(n ast.Node) map[*types.Var]bool {
 				}
 				// a translated method that hands its receiver back assigns it (and whatever is declared an alias of its fields)
 				if mf, ok := c.fi.Pkg.callee(s).(*types.Func); ok && mf != c.fi.Obj {
-					if fi := c.t.pr.Funcs[mf]; fi != nil && fi.Decl.Recv != nil && c.t.translatable(fi) {
+					if fi := c.t.pr.Funcs[mf]; fi != nil && fi.Decl.Recv != nil && c.t.translatable(fi) && !c.isAbstract(mf) {
 						c.t.translate(fi, c, s)
 						if c.t.recvInout[mf] {
 							if v := root(sel.X); v != nil {
@@ -2341,7 +2375,7 @@ func (c *fctx) assign(e *emitter, ind int, st *ast.AssignStmt) {
 	}
 	// a call of a translated method that hands its receiver back: results, then the receiver's new value
 	if call, ok := ast.Unparen(st.Rhs[0]).(*ast.CallExpr); ok && len(st.Rhs) == 1 && (st.Tok == token.ASSIGN || st.Tok == token.DEFINE) {
-		if m, fi, recv := c.methodCallee(call); m != nil && c.t.translatable(fi) {
+		if m, fi, recv := c.methodCallee(call); m != nil && c.t.translatable(fi) && !c.isAbstract(m) {
 			c.t.translate(fi, c, call)
 			if c.t.recvInout[m] {
 				c.syncAlias(e, ind, recv, true)
